@@ -1,5 +1,5 @@
 PIPEFIX = ["engine/umem_count.c", "engine/pipefix.c", "engine/fake_upump.c", "engine/heapcount.c"]
-QMODS = lib("upipe-modules", only=["upipe_queue_sink.c", "upipe_queue_source.c", "upipe_queue.c", "upipe_transfer.c", "upipe_worker.c"])
+QMODS = lib("upipe-modules", only=["upipe_queue_sink.c", "upipe_queue_source.c", "upipe_queue.c", "upipe_transfer.c", "upipe_worker.c"]) + lib("upipe-pthread", only=["upipe_pthread_transfer.c", "uprobe_pthread_upump_mgr.c"])
 TARGET = dict(
     rule=("tape-decoded history over one of five topologies -- 1 or 2 queue sinks -> queue source -> far sink; worker linear / worker sink / worker source "
           "(xfer manager with or without mutex, remote loop attached before or after the allocation, upump-manager probe frozen during the allocation, 1-2 mock "
@@ -16,7 +16,7 @@ TARGET = dict(
                  "named exclusion last-message-handover: no preemption while upipe_xfer_mgr_detach / upipe_qsrc_no_ref / upipe_xfer_probe_free is on the stack "
                  "(open finding, function names through the ASan symbolizer; if no symbolizer is available preemption inside calls is disabled altogether)",
                  "lib/upipe-pthread (real threads) is not exercised: uprobe_pthread_upump_mgr and upipe_pthread_transfer need OS threads, see DESIGN.md section 8"],
-    execs=[dict(name="queue", harness="harness/C06_queue.c", repo=LIBUPIPE + QMODS, engine=PIPEFIX, share=1.0)],
+    execs=[dict(name="queue", harness="harness/C06_queue.c", repo=LIBUPIPE + QMODS, engine=PIPEFIX, share=1.0, libs=["-lpthread"])],
     quick=dict(cases=20000, budget=35, floor=2000), thorough=dict(cases=400000, budget=420, floor=20000),
 )
 META = dict(
